@@ -43,7 +43,7 @@ func smallAlphabet() *tracerAlphabet {
 		accounts: []common.Address{common.BytesToAddress([]byte{0xa1}), common.BytesToAddress([]byte{0xa2})},
 		slots:    []*uint256.Int{uint256.NewInt(0), uint256.NewInt(1), uint256.NewInt(2), uint256.NewInt(5), hashed},
 		offsets:  []*uint256.Int{nil, uint256.NewInt(0), uint256.NewInt(1), uint256.NewInt(31), uint256.NewInt(32), big64},
-		types:    []common.Hash{common.BytesToHash([]byte{1}), common.BytesToHash([]byte{2}), common.BytesToHash([]byte{3})},
+		types:    []common.Hash{common.BytesToHash([]byte{1}), common.BytesToHash([]byte{2}), common.BytesToHash([]byte{3}), {}}, // incl. the zero type id
 		names:    [][]byte{[]byte("a"), []byte("b"), []byte("cc"), {}},
 		idxKeys:  [][]byte{{1}, {2}, common.LeftPadBytes([]byte{7}, 32), {0, 1}},
 		vals:     [][]byte{{}, {0}, {1}, {1, 2, 3}, {0xff}, common.LeftPadBytes([]byte{9}, 32)},
@@ -194,9 +194,9 @@ func genTracerCase(r *Rng, em *Emitter, length int, al *tracerAlphabet) {
 	// harness-side bookkeeping of accepted registrations (computed from the history alone): per parent path,
 	// which name holds which (slot, offset, type) and which (slot, offset) is taken by which type
 	type childRec struct{ slot, off, typ string }
-	byName := map[string]childRec{}  // parentKey|name -> record
-	clsOf := map[string]string{}      // parentKey|name -> conflict class of that first registration
-	bySO := map[string]string{}       // parentKey|slot|off -> type
+	byName := map[string]childRec{}    // parentKey|name -> record
+	clsOf := map[string]string{}       // parentKey|name -> conflict class of that first registration
+	bySO := map[string]string{}        // parentKey|slot|off -> type
 	firstPath := map[string][][]byte{} // account|slot|0|type -> path of the first such registration (parent lookup)
 	offOf := func(o *uint256.Int) string {
 		if o == nil {
